@@ -88,6 +88,7 @@ class Fn:
         self.opaque_locals: set[str] = set()
         self.options: dict[str, list] = {}
         self.locals_term: dict[str, str] = {}
+        self.locals_cond: dict[str, str] = {}
 
     # ---- atoms ---------------------------------------------------------------------------
     def names_ok(self, e, ren) -> bool:
@@ -244,6 +245,8 @@ class Fn:
         if isinstance(e, ast.UnaryOp) and isinstance(e.op, ast.Not):
             return f"(Not {self.cond(e.operand, ren)})"
         if isinstance(e, ast.Name):
+            if e.id in getattr(self, "locals_cond", {}):
+                return self.locals_cond[e.id]            # a named local condition: `ok = x.ndim == 1`
             if e.id in ren and self.kinds.get(e.id) in ("KBool", "KOptInt", "KInt", "KAny"):
                 return f"(BoolP {q(ren[e.id])})"
             raise Unsupported("truthiness of " + e.id)
@@ -400,6 +403,16 @@ class Fn:
                         continue
                     except Unsupported:
                         pass
+                if isinstance(v, (ast.Compare, ast.BoolOp)) or (isinstance(v, ast.UnaryOp) and isinstance(v.op, ast.Not)):
+                    # a named local condition (side-effect free): substituted where it is tested
+                    try:
+                        c = self.cond(v, ren)
+                        if not hasattr(self, "locals_cond"):
+                            self.locals_cond = {}
+                        self.locals_cond[n] = c
+                        continue
+                    except Unsupported:
+                        pass
                 if self.is_opaque_assign(s, ren):
                     self.opaque_locals.add(n)
                     out.append(self.seval(self.renamed(s, ren)))
@@ -430,10 +443,10 @@ class Fn:
                 for p_ in cparams:
                     if p_ not in ren2:
                         raise Unsupported("callee default for " + p_)
-                saved = (self.options, self.locals_term)
-                self.options, self.locals_term = {}, {}
+                saved = (self.options, self.locals_term, self.locals_cond)
+                self.options, self.locals_term, self.locals_cond = {}, {}, {}
                 out.append(self.body(callee.body, ren2, depth + 1))
-                self.options, self.locals_term = saved
+                self.options, self.locals_term, self.locals_cond = saved
                 continue
             raise Unsupported(type(s).__name__ + ": " + ast.unparse(s)[:100])
         return self.seq(out)
